@@ -286,3 +286,5 @@ def load_ss_c(pid):
                  ensures=[('code-importable,then-loaded,then-views-fixed;returns-the-loaded-object-with-its-DAE-fields-as-read', post)], modifies=[], static=True)
     c.merge = False
     return c
+
+replay_snapshot.real_system = True       # drives the real program on stock inputs: a crash inside repository code is a confirmed failure
